@@ -428,6 +428,46 @@ func (c *Ctx) mck(which map[string]bool) {
 			a := c.acc("MCK-6", cl, "exchange-closed-on-exit-unless-ErrClosed-or-indefinite-block")
 			s := c.acc("MCK-6", cl, "scripted-errors-are-delivered")
 			blk := c.acc("MCK-6", cl, "block-entry:zero-delay-ends-without-close,else-sleeps(Delay)")
+			ent := c.acc("MCK-6", cl, "examined-and-sent-is-the-entry-of-this-iteration")
+			isEntry := func(v ssa.Value) bool {
+				v = stripConv(v)
+				if ex, ok := v.(*ssa.Extract); ok {
+					_, isNext := ex.Tuple.(*ssa.Next)
+					return isNext
+				}
+				if u, ok := v.(*ssa.UnOp); ok {
+					_, isIA := u.X.(*ssa.IndexAddr)
+					return isIA
+				}
+				_, isIdx := v.(*ssa.Index)
+				return isIdx
+			}
+			entSeen := map[ssa.Instruction]bool{}
+			for _, p := range c.Paths("MCK-6", cl) {
+				for i := range p.Events {
+					e := &p.Events[i]
+					if e.Instr == nil || entSeen[e.Instr] || !c.inRegion(cl, e) {
+						continue
+					}
+					var v ssa.Value
+					what := ""
+					switch {
+					case (isStd(e, "errors.Is") || isStd(e, "errors.As")) && len(e.Args) == 2:
+						v, what = e.Args[0], "examined"
+					case e.Kind == pathx.KSend:
+						v, what = e.Val, "sent on the exchange"
+					default:
+						continue
+					}
+					entSeen[e.Instr] = true
+					if v != nil && isEntry(v) {
+						ent.pass()
+					} else if v != nil {
+						ent.fail(p, i, "%s is %s where the script entry of this iteration is due: the exchange then yields something other than the errors the test author scripted (the fixed submission error is nil whenever there is a script)", Expr(v), what)
+					}
+				}
+			}
+			ent.done(3, "errors.Is, errors.As and every send take the element of the script being ranged over")
 			for _, p := range c.Paths("MCK-6", cl) {
 				if p.End == pathx.KReturn {
 					closed := p.Index(0, func(e *pathx.Event) bool { return e.Kind == pathx.KClose }) >= 0
